@@ -515,54 +515,107 @@ def call_cfg(c):
     return cfg
 
 
-def exp_logdens(c):
-    """log density of the released value on each interval of the constructed Exponential mechanism:
-    (breakpoints a_0..a_{k+1}, log density per interval); reads epsilon, sensitivity, monotonic, utility, measure"""
+def quantile_breakpoints(case, col):
+    """the sorted array `quantile` builds for one cell: clipped data with the (min-separated) bounds appended"""
+    l, u = col["bounds"]
+    if u - l < 1e-5:
+        mid = (u + l) / 2
+        l, u = mid - 1e-5 / 2, mid + 1e-5 / 2
+    a = np.sort(np.append(np.clip(np.asarray(col["data"], dtype=float), l, u), [l, u]))
+    return a
+
+
+def exp_law(c, a):
+    """(breakpoints, log selection probability per interval, interval lengths) of a constructed Exponential mechanism
+    of the quantile tool; reads epsilon, sensitivity, monotonic, utility, measure from the interposed object.
+    `a` = the harness' reconstruction of the sorted array; it is used for the interval lengths when it agrees with the
+    mechanism's measure (or when the mechanism has none), otherwise the measure itself is laid out from the lower bound"""
     p = c.params
     ut = np.array([float(x) for x in p["utility"]])
-    ms = np.array([float(x) for x in p["measure"]])
     eps, sens = float(p["epsilon"]), float(p["sensitivity"])
     scale = eps / sens / (2 - bool(p.get("monotonic"))) if sens / eps > 0 else float("inf")
+    lens = np.diff(a)
+    consistent = True
+    if p.get("measure") is not None:
+        ms = np.array([float(x) for x in p["measure"]])
+        span = max(float(np.sum(np.abs(ms))), 1e-300)
+        if ms.shape != lens.shape or not np.allclose(ms, lens, rtol=1e-9, atol=1e-12 * span):
+            consistent = False
+            lens = ms
+            a = a[0] + np.concatenate([[0.0], np.cumsum(ms)])
+    else:
+        ms = np.ones_like(ut)
+    if len(ut) != len(lens):
+        return None
     lw = scale * (ut - ut.max())
     with np.errstate(divide="ignore", invalid="ignore"):
-        t = lw + np.log(ms)                       # -inf on zero-length intervals
-        t = t[np.isfinite(t)]
-        lz = (t.max() + np.log(np.sum(np.exp(t - t.max())))) if t.size else float("nan")
-    return lw - lz, ms
+        t = lw + np.log(ms)                       # -inf where the measure is zero
+        tf = t[np.isfinite(t)]
+        lz = (tf.max() + np.log(np.sum(np.exp(tf - tf.max())))) if tf.size else float("nan")
+    return a, t - lz, lens, consistent
 
 
-def density_log_ratio(c1, c2, lower):
-    """max over y of |log dens_D(y) - log dens_D'(y)| for two Exponential invocations of the quantile tool"""
-    ld1, m1 = exp_logdens(c1)
-    ld2, m2 = exp_logdens(c2)
-    a1 = lower + np.concatenate([[0.0], np.cumsum(m1)])
-    a2 = lower + np.concatenate([[0.0], np.cumsum(m2)])
+def density_log_ratio(c1, c2, a1, a2):
+    """max over outputs y of |log dens_D(y) - log dens_D'(y)|; an atom (positive probability on a zero-length
+    interval) counts as an infinite ratio unless the other dataset has an atom of comparable mass at the same point"""
+    L1, L2 = exp_law(c1, a1), exp_law(c2, a2)
+    if L1 is None or L2 is None:
+        return float("inf"), ("utility/measure/interval counts do not match", 0, 0), False
+    a1, lp1, len1, ok1 = L1
+    a2, lp2, len2, ok2 = L2
+    worst, where = 0.0, (0.0, 0, 0)
+    with np.errstate(divide="ignore", invalid="ignore"):
+        ld1 = lp1 - np.log(len1)
+        ld2 = lp2 - np.log(len2)
+    atoms1 = {float(a1[i]): lp1[i] for i in range(len(len1)) if len1[i] <= 0 and lp1[i] > -np.inf}
+    atoms2 = {float(a2[i]): lp2[i] for i in range(len(len2)) if len2[i] <= 0 and lp2[i] > -np.inf}
+    for pt in set(atoms1) | set(atoms2):
+        d = abs(atoms1.get(pt, -np.inf) - atoms2.get(pt, -np.inf)) if (pt in atoms1 and pt in atoms2) else float("inf")
+        if d > worst:
+            worst, where = d, (pt - float(a1[0]), -1, -1)
     pts = np.unique(np.concatenate([a1, a2]))
-    worst = 0.0
-    where = None
     span = max(a1[-1] - a1[0], 1e-300)
     for lo, hi in zip(pts[:-1], pts[1:]):
         if hi - lo <= 1e-12 * span:
             continue
         y = 0.5 * (lo + hi)
-        i1 = min(max(int(np.searchsorted(a1, y, side="right")) - 1, 0), len(m1) - 1)
-        i2 = min(max(int(np.searchsorted(a2, y, side="right")) - 1, 0), len(m2) - 1)
+        i1 = min(max(int(np.searchsorted(a1, y, side="right")) - 1, 0), len(len1) - 1)
+        i2 = min(max(int(np.searchsorted(a2, y, side="right")) - 1, 0), len(len2) - 1)
         d = abs(ld1[i1] - ld2[i2])
+        if d != d:
+            d = float("inf")
         if d > worst:
-            worst, where = d, (float(y), int(i1), int(i2))
-    return worst, where
+            worst, where = d, (float(y - a1[0]), int(i1), int(i2))
+    return worst, where, ok1 and ok2
 
 
-def probabilities_consistent(c):
+def probabilities_consistent(c, a):
     """the mechanism's own cumulative probabilities agree with the law recomputed from utility and measure"""
-    ld, ms = exp_logdens(c)
+    L = exp_law(c, a)
+    if L is None:
+        return False
     got = np.asarray(c.obj._probabilities, dtype=float)
     if not np.all(np.isfinite(got)):
         return True     # exp underflow in the mechanism itself (huge epsilon x utility range): C12's business, not C07's
     with np.errstate(over="ignore", invalid="ignore"):
-        p = np.where(ms > 0, np.exp(np.minimum(ld, 700.0)) * ms, 0.0)
-    cum = np.cumsum(p)
+        pr = np.exp(np.minimum(L[1], 0.0))
+    cum = np.cumsum(pr)
     return got.shape == cum.shape and np.allclose(got, cum, rtol=0, atol=1e-9)
+
+
+def quantile_columns(case, arr):
+    """per invocation (quantile-major, then cell): the cell's data and bounds"""
+    mode, red, red_shape, kept, _ = layout(case)
+    M = records_matrix(arr, red)
+    ncell = M.shape[1] if mode == "axis" else 1
+    cb = cell_bounds(case, ncell)
+    q = case.get("quant", 0.5) if case["tool"] != "median" else 0.5
+    nq = len(q) if isinstance(q, list) else 1
+    cols = []
+    for _ in range(nq):
+        for c in range(ncell):
+            cols.append({"data": M[:, c] if mode == "axis" else M[:, 0], "bounds": cb[c]})
+    return cols
 
 
 def hist_bin_of(case, edges, row):
@@ -618,6 +671,7 @@ def direct_check(case, nb, forced_seed=1):
     data = {"case": case, "neighbour": nb, "forced_seed": forced_seed}
     factor = 1.0
     touched_nan = False
+    qcols1 = qcols2 = []
     if fam == "hist":
         s1 = [list(map(float, row)) for row in case["sample"]]
         s2 = [list(row) for row in s1]
@@ -635,6 +689,8 @@ def direct_check(case, nb, forced_seed=1):
         arr2 = replace_record(arr, red, nb["rec"], [unjson_float(x) for x in nb["new"]])
         M1, M2 = records_matrix(arr, red), records_matrix(arr2, red)
         touched_nan = bool(np.isnan(M1).any() or np.isnan(M2).any())
+        if fam == "quant":
+            qcols1, qcols2 = quantile_columns(case, arr), quantile_columns(case, arr2)
         c1, o1, e1 = run_tool(case, arr=arr, forced_seed=forced_seed)
         c2, o2, e2 = run_tool(case, arr=arr2, forced_seed=forced_seed)
     info = {"calls": len(c1), "moved": 0, "exc": type(e1).__name__ if e1 else None}
@@ -670,10 +726,16 @@ def direct_check(case, nb, forced_seed=1):
             return (classify(case, nb, "config-differs", touched_nan),
                     f"{case['tool']}: invocation {i} configured differently on D and D': {ca[:6]} vs {cb_[:6]}", data), info
         if a.cls == "Exponential":
-            if not (probabilities_consistent(a) and probabilities_consistent(b)):
+            if i >= len(qcols1):
+                return (classify(case, nb, "call-count", touched_nan), f"{case['tool']}: more Exponential invocations "
+                        f"({len(c1)}) than (quantile, cell) pairs ({len(qcols1)})", data), info
+            a1, a2 = quantile_breakpoints(case, qcols1[i]), quantile_breakpoints(case, qcols2[i])
+            if not (probabilities_consistent(a, a1) and probabilities_consistent(b, a2)):
                 return (f"C07:{case['tool']}:probabilities", f"{case['tool']}: invocation {i}: the mechanism's selection "
                         "probabilities are not measure*exp(eps/2*utility) normalised", data), info
-            lr, where = density_log_ratio(a, b, 0.0)
+            lr, where, cons = density_log_ratio(a, b, a1, a2)
+            if not cons:
+                info["inconsistent_measure"] = True
             qsum += lr
             if lr > 0:
                 info["moved"] += 1
@@ -682,7 +744,8 @@ def direct_check(case, nb, forced_seed=1):
                 data["offending"] = {"index": i, "log_ratio": lr, "where": where, "epsilon": e_i}
                 return (classify(case, nb, "density-ratio", touched_nan),
                         f"{case['tool']}: invocation {i}: density of the released value changes by a factor e^{lr:.6g} > "
-                        f"e^{e_i:.6g} at offset {where[0]:.6g} above the lower bound (intervals {where[1]}/{where[2]})", data), info
+                        f"e^{e_i:.6g} at offset {where[0]!r} above the lower bound (intervals {where[1]}/{where[2]}; -1 = point mass)",
+                        data), info
             continue
         va, vb = float(a.value), float(b.value)
         sens = float(a.params["sensitivity"])
@@ -921,6 +984,9 @@ def compare_answer(ctx, case, line, expect, ans):
                          [c.cls, p["epsilon"], p["sensitivity"], p.get("monotonic")], "mechanism configuration")
             return False
         iut = [float(x) for x in p["utility"]]
+        if p.get("measure") is None:
+            ctx.disagree("tools.quantile", {"case": brief(case), "field": "measure"}, ms[:8], None, "the mechanism has no base measure")
+            return False
         ims = [float(x) for x in p["measure"]]
         span = max(sum(abs(x) for x in ims), 1e-300)
         if len(iut) != n or any(not close(a, b, 1e-9, 1e-12) for a, b in zip(ut, iut)):
